@@ -6,11 +6,13 @@ CONSTANTS
   MaxLen = 2
   BodyClasses = {"any"}
   Flags = {"none"}
+  MaxFrames = 1
+  Threads = {1}
   MaxStall = 1
   Chunking = "all"
   Dev = @@DEV@@
   Emit = FALSE
 SPECIFICATION Spec
-INVARIANTS TypeOK @@ALLOC@@ NoAllocForOversize ProgressPossible
+INVARIANTS TypeOK @@ALLOC@@ NoAllocForOversize RetainBound ProgressPossible
 PROPERTY Termination
 CHECK_DEADLOCK FALSE
